@@ -1018,7 +1018,10 @@ class ExecBase:
                     self.oos("filtered comprehension over a tuple with symbolic condition", node)
                 out.append(self.eval(node.elt, sub))
             return Tup(out)
-        xs = self.need(self.as_val(xs_slot, st, node), "l", st, node)
+        xv_ = self.as_val(xs_slot, st, node)
+        if xv_.tag == "st" and hasattr(self, "unordered_iteration") and kind == "list":
+            self.unordered_iteration(st, node, "comprehension over a set")
+        xs = self.need(xv_, "l", st, node)
         ic = z3.Const(f"i!lc{node.lineno}_{node.col_offset}", IntS)
         sub = st.fork()
         self.bind_target(g.target, from_any(xs[ic]), sub, node)
